@@ -72,7 +72,7 @@ def main():
     if getattr(h, 'kind', '') == 'smt':
         return smt_main(pid, h, tier, known, t0)
     res = explore(h.body(tier), bounds={}, timeout=budget, per_path=h.per_path, max_paths=h.max_paths,
-                  float_model=h.float_model, known=preds, smt_timeout=h.smt_timeout)
+                  float_model=h.float_model, known=preds, smt_timeout=h.smt_timeout, replay_passed=getattr(h, 'replay_all', False))
     res['harness'] = hname
     res['tier'] = tier
     res['bounds'] = h.bounds[tier]
